@@ -340,15 +340,15 @@ def run(ctx):
     ctx.coq()
     drv = ctx.build_driver('StringM')
     h = ctx.build_harness('string_ops.c', whitebox='String')
-    henv = dict(os.environ, H_TIMEOUT=os.environ.get('H_TIMEOUT', '4'))
+    henv = dict(os.environ, H_TIMEOUT=os.environ.get('H_TIMEOUT', '6'))
 
     def chunked(exe, env):
         """run the harness in chunks; once a chunk shows many crashes / hangs (a broken library: every such case costs
         the watchdog's seconds) the remaining cases of the batch are not run (their lines read SKIPPED and are ignored)"""
         def f(cs):
             out, bad = [], 0
-            for i in range(0, len(cs), 250):
-                part = cs[i:i + 250]
+            for i in range(0, len(cs), 100):
+                part = cs[i:i + 100]
                 if bad > 12:
                     out += ['SKIPPED'] * len(part)
                     continue
